@@ -1,0 +1,11 @@
+//go:build verif
+
+package kafkaconsumer
+
+import "github.com/confluentinc/confluent-kafka-go/kafka"
+
+// RetryAssignPartitionsV calls retryAssignPartitions (first attempt, then one attempt per 3 s tick until success or
+// until a revocation cancels the loop).
+func (k *KafkaConsumer) RetryAssignPartitionsV(partitions []kafka.TopicPartition) {
+	k.retryAssignPartitions(partitions)
+}
